@@ -91,7 +91,19 @@ pub fn option_sets() -> Vec<(&'static str, SerializerOptions)> {
 }
 
 fn ser<T: Serialize>(v: &T, o: SerializerOptions) -> Result<String, String> {
-    serde_saphyr::to_string_with_options(v, o).map_err(|e| format!("{e}"))
+    // (a panic inside the serializer is data, not a harness failure)
+    match std::panic::catch_unwind(std::panic::AssertUnwindSafe(|| serde_saphyr::to_string_with_options(v, o).map_err(|e| format!("{e}")))) {
+        Ok(r) => r,
+        Err(_) => Err("PANIC in serializer".to_string()),
+    }
+}
+
+/// from_str with panics and errors turned into text (a panic inside the crate is data, not a harness failure)
+fn fs<T: serde::de::DeserializeOwned>(t: &str) -> Result<T, String> {
+    match std::panic::catch_unwind(|| serde_saphyr::from_str::<T>(t).map_err(|e| classify(&e))) {
+        Ok(r) => r,
+        Err(_) => Err("PANIC in deserializer".to_string()),
+    }
 }
 
 /// serialize `s` at `pos` and read it back into the same type
@@ -259,11 +271,11 @@ pub fn run(args: &Args) -> i32 {
             for v in [<$t>::MIN, <$t>::MIN + 1, <$t>::MAX, <$t>::MAX - 1, 0 as $t, 1 as $t] {
                 for pos in ["root", "value", "key"] {
                     let (text, back) = match pos {
-                        "root" => { let t = ser(&v, SerializerOptions::default()).unwrap_or_default(); let b = serde_saphyr::from_str::<$t>(&t).map(|x| x.to_string()).unwrap_or_else(|e| format!("ERR {}", classify(&e))); (t, b) }
+                        "root" => { let t = ser(&v, SerializerOptions::default()).unwrap_or_default(); let b = fs::<$t>(&t).map(|x| x.to_string()).unwrap_or_else(|e| format!("ERR {}", e)); (t, b) }
                         "value" => { let mut m = BTreeMap::new(); m.insert("k".to_string(), v); let t = ser(&m, SerializerOptions::default()).unwrap_or_default();
-                                     let b = serde_saphyr::from_str::<BTreeMap<String, $t>>(&t).map(|m| m["k"].to_string()).unwrap_or_else(|e| format!("ERR {}", classify(&e))); (t, b) }
+                                     let b = fs::<BTreeMap<String, $t>>(&t).map(|m| m.get("k").map(|x| x.to_string()).unwrap_or_else(|| "ERR key-missing".to_string())).unwrap_or_else(|e| format!("ERR {}", e)); (t, b) }
                         _ => { let mut m = BTreeMap::new(); m.insert(v, 1u8); let t = ser(&m, SerializerOptions::default()).unwrap_or_default();
-                               let b = serde_saphyr::from_str::<BTreeMap<$t, u8>>(&t).map(|m| m.keys().next().map(|k| k.to_string()).unwrap_or_default()).unwrap_or_else(|e| format!("ERR {}", classify(&e))); (t, b) }
+                               let b = fs::<BTreeMap<$t, u8>>(&t).map(|m| m.keys().next().map(|k| k.to_string()).unwrap_or_default()).unwrap_or_else(|e| format!("ERR {}", e)); (t, b) }
                     };
                     w.put(&Rec { id: format!("int-{}-{v}-{pos}", stringify!($t)), kind: "int", s: vec![], pos, opt: "default", y12: false, text, back: vec![], plain: false, val: v.to_string(), backval: back });
                 }
@@ -274,20 +286,20 @@ pub fn run(args: &Args) -> i32 {
     // bool, char, unit, option
     for v in [true, false] {
         let t = ser(&v, SerializerOptions::default()).unwrap_or_default();
-        let b = serde_saphyr::from_str::<bool>(&t).map(|x| x.to_string()).unwrap_or_else(|e| format!("ERR {}", classify(&e)));
+        let b = fs::<bool>(&t).map(|x| x.to_string()).unwrap_or_else(|e| format!("ERR {}", e));
         w.put(&Rec { id: format!("bool-{v}"), kind: "int", s: vec![], pos: "root", opt: "default", y12: false, text: t, back: vec![], plain: false, val: v.to_string(), backval: b });
     }
     for c in alphabet.iter().chain(['A', '0', '𝄞'].iter()) {
         for pos in ["root", "value"] {
             let (t, b) = if pos == "root" {
                 let t = ser(c, SerializerOptions::default()).unwrap_or_default();
-                let b = serde_saphyr::from_str::<char>(&t).map(|x| x.to_string()).unwrap_or_else(|e| format!("ERR {}", classify(&e)));
+                let b = fs::<char>(&t).map(|x| x.to_string()).unwrap_or_else(|e| format!("ERR {}", e));
                 (t, b)
             } else {
                 let mut m = BTreeMap::new();
                 m.insert("k".to_string(), *c);
                 let t = ser(&m, SerializerOptions::default()).unwrap_or_default();
-                let b = serde_saphyr::from_str::<BTreeMap<String, char>>(&t).map(|m| m["k"].to_string()).unwrap_or_else(|e| format!("ERR {}", classify(&e)));
+                let b = fs::<BTreeMap<String, char>>(&t).map(|m| m.get("k").map(|x| x.to_string()).unwrap_or_else(|| "ERR key-missing".to_string())).unwrap_or_else(|e| format!("ERR {}", e));
                 (t, b)
             };
             w.put(&Rec { id: format!("char-{}-{pos}", *c as u32), kind: "int", s: vec![], pos, opt: "default", y12: false, text: t, back: vec![], plain: false, val: to_syms(&c.to_string()).join(""), backval: if b.starts_with("ERR") { b } else { to_syms(&b).join("") } });
@@ -295,11 +307,11 @@ pub fn run(args: &Args) -> i32 {
     }
     {
         let t = ser(&(), SerializerOptions::default()).unwrap_or_default();
-        let b = serde_saphyr::from_str::<()>(&t).map(|_| "()".to_string()).unwrap_or_else(|e| format!("ERR {}", classify(&e)));
+        let b = fs::<()>(&t).map(|_| "()".to_string()).unwrap_or_else(|e| format!("ERR {}", e));
         w.put(&Rec { id: "unit".into(), kind: "int", s: vec![], pos: "root", opt: "default", y12: false, text: t, back: vec![], plain: false, val: "()".into(), backval: b });
         let v: Option<String> = None;
         let t = ser(&v, SerializerOptions::default()).unwrap_or_default();
-        let b = serde_saphyr::from_str::<Option<String>>(&t).map(|x| format!("{x:?}")).unwrap_or_else(|e| format!("ERR {}", classify(&e)));
+        let b = fs::<Option<String>>(&t).map(|x| format!("{x:?}")).unwrap_or_else(|e| format!("ERR {}", e));
         w.put(&Rec { id: "none".into(), kind: "int", s: vec![], pos: "root", opt: "default", y12: false, text: t, back: vec![], plain: false, val: "None".into(), backval: b });
     }
     // byte arrays up to length 2 exhaustively (length 3 sampled)
@@ -318,7 +330,7 @@ pub fn run(args: &Args) -> i32 {
     for (i, bs) in bytes_cases.iter().enumerate() {
         let v = serde_bytes::ByteBuf::from(bs.clone());
         let t = ser(&v, SerializerOptions::default()).unwrap_or_default();
-        let b = serde_saphyr::from_str::<serde_bytes::ByteBuf>(&t).map(|x| hex(&x)).unwrap_or_else(|e| format!("ERR {}", classify(&e)));
+        let b = fs::<serde_bytes::ByteBuf>(&t).map(|x| hex(&x)).unwrap_or_else(|e| format!("ERR {}", e));
         w.put(&Rec { id: format!("bytes{i}"), kind: "int", s: vec![], pos: "root", opt: "default", y12: false, text: if i < 50 { t } else { String::new() }, back: vec![], plain: false, val: hex(bs), backval: b });
     }
     // floats: bit-for-bit, and the shape of every emitted text
@@ -327,7 +339,7 @@ pub fn run(args: &Args) -> i32 {
     let mut check_f32 = |bits: u32, w: &mut NdWriter, shapes: &mut BTreeMap<String, String>, bad: &mut usize| {
         let v = f32::from_bits(bits);
         let t = match serde_saphyr::to_string(&v) { Ok(t) => t, Err(_) => { *bad += 1; return; } };
-        let ok = match serde_saphyr::from_str::<f32>(&t) {
+        let ok = match fs::<f32>(&t) {
             Ok(b) => b.to_bits() == bits || (b.is_nan() && v.is_nan()),
             Err(_) => false,
         };
@@ -336,7 +348,7 @@ pub fn run(args: &Args) -> i32 {
             *bad += 1;
             if *bad <= 20 {
                 w.put(&Rec { id: format!("f32-{bits:08x}"), kind: "int", s: vec![], pos: "root", opt: "default", y12: false, text: t.clone(), back: vec![], plain: false,
-                             val: format!("{bits:08x}"), backval: serde_saphyr::from_str::<f32>(&t).map(|b| format!("{:08x}", b.to_bits())).unwrap_or_else(|e| format!("ERR {}", classify(&e))) });
+                             val: format!("{bits:08x}"), backval: fs::<f32>(&t).map(|b| format!("{:08x}", b.to_bits())).unwrap_or_else(|e| format!("ERR {}", e)) });
             }
         }
     };
@@ -355,7 +367,7 @@ pub fn run(args: &Args) -> i32 {
                             let bits = b as u32;
                             let v = f32::from_bits(bits);
                             let t = match serde_saphyr::to_string(&v) { Ok(t) => t, Err(_) => { bad += 1; continue; } };
-                            let ok = match serde_saphyr::from_str::<f32>(&t) {
+                            let ok = match fs::<f32>(&t) {
                                 Ok(x) => x.to_bits() == bits || (x.is_nan() && v.is_nan()),
                                 Err(_) => false,
                             };
@@ -381,7 +393,7 @@ pub fn run(args: &Args) -> i32 {
             for (k, v) in sh { shapes.entry(k).or_insert(v); }
             for (bits, t) in fails.into_iter().take(20) {
                 w.put(&Rec { id: format!("f32-{bits:08x}"), kind: "int", s: vec![], pos: "root", opt: "default", y12: false, text: t.clone(), back: vec![], plain: false,
-                             val: format!("{bits:08x}"), backval: serde_saphyr::from_str::<f32>(&t).map(|b| format!("{:08x}", b.to_bits())).unwrap_or_else(|e| format!("ERR {}", classify(&e))) });
+                             val: format!("{bits:08x}"), backval: fs::<f32>(&t).map(|b| format!("{:08x}", b.to_bits())).unwrap_or_else(|e| format!("ERR {}", e)) });
             }
         }
     } else {
@@ -404,7 +416,7 @@ pub fn run(args: &Args) -> i32 {
     for bits in f64s {
         let v = f64::from_bits(bits);
         let Ok(t) = serde_saphyr::to_string(&v) else { bad_floats += 1; continue };
-        let back = serde_saphyr::from_str::<f64>(&t);
+        let back = fs::<f64>(&t);
         let ok = matches!(&back, Ok(b) if b.to_bits() == bits || (b.is_nan() && v.is_nan()));
         shapes.entry(float_shape(&t)).or_insert_with(|| t.clone());
         // also as a mapping value and read through the untyped tree: must stay a float, never a string/int
@@ -412,7 +424,7 @@ pub fn run(args: &Args) -> i32 {
             bad_floats += 1;
             if bad_floats <= 20 {
                 w.put(&Rec { id: format!("f64-{bits:016x}"), kind: "int", s: vec![], pos: "root", opt: "default", y12: false, text: t, back: vec![], plain: false, val: format!("{bits:016x}"),
-                             backval: back.map(|b| format!("{:016x}", b.to_bits())).unwrap_or_else(|e| format!("ERR {}", classify(&e))) });
+                             backval: back.map(|b| format!("{:016x}", b.to_bits())).unwrap_or_else(|e| format!("ERR {e}")) });
             }
         }
     }
